@@ -26,7 +26,12 @@ func VerifC18CommonFlags() {
 			"--disable_log_color", "--token=tok", "--subdomain_host=x.com", "--allow_ports=1000-1002,2000", "--max_ports_per_client=4", "--tls_only",
 			"--dashboard_tls_cert_file=c.pem", "--dashboard_tls_key_file=k.pem"}
 		if tlsMode != "" {
-			args = append(args, tlsMode)
+			// flags may come in any order: the mode before or after the files it refers to
+			if zzverif.Bool("tlsModeBeforeTheFiles") {
+				args = append([]string{tlsMode}, args...)
+			} else {
+				args = append(args, tlsMode)
+			}
 		}
 		err := cmd.PersistentFlags().Parse(args)
 		zzverif.Assert(err == nil, "C18.cflags.documented-flags-parse")
